@@ -702,7 +702,8 @@ func (e *env[T]) join(ins [][]T, key string) {
 	}
 	in := fmt.Sprint(ins)
 	var got []T
-	p := x.try("xslices.Join", func() { got = xslices.Join(args...) })
+	ol := guardOuter(args, []T{e.sent})
+	p := x.try("xslices.Join", func() { got = xslices.Join(ol.s...) })
 	nt := ""
 	if total > 0 {
 		nt = fmt.Sprint("Join|", e.tn, "|", key)
@@ -722,6 +723,17 @@ func (e *env[T]) join(ins [][]T, key string) {
 			return
 		}
 	}
+	if why := ol.changed(sameSlice[T]); why != "" {
+		x.fail("xslices.Join-modified-arguments", fmt.Sprintf("Join(%s) modified the caller's variadic argument slice: %s", in, why), map[string]any{"input": in})
+		return
+	}
+	for i := range ol.s {
+		if !eqSlice(ol.s[i], ins[i]) {
+			x.fail("xslices.Join-modified-arguments", fmt.Sprintf("Join(%s): the caller's input %d now reads %v", in, i, show(ol.s[i])), nil)
+			return
+		}
+	}
+	x.observe("argument integrity", "xslices.Join")
 }
 
 // ---------------------------------------------------------------------------------------------
